@@ -26,8 +26,8 @@ def ring(N : int, defect : float, open :bool = False, n_cover:int = 1) -> Surfac
     max_defect = 2*pi-0.01
     defect = max(min(defect,max_defect), 0.) # 0 is ok, but 2pi is point at infinity
 
-    if N<3:
-        raise Exception("N should be > 3 for a valid ring. Aborting")
+    if N<3 or n_cover<1:
+        raise Exception("N should be >= 3 and n_cover >= 1 for a valid ring. Aborting")
 
     ring.vertices.append(Vec(0.,0.,0.))
     ring.vertices.append(Vec(1.,0.,0.))
